@@ -8,7 +8,7 @@ Helper lemmas and the C04/C05 layout theorems about `FfcxModel/IR/Layout.lean`.
   expr_layout / expr_layout_inj   C04  A[point][component][argument dof]
   expr_descriptor     C04  descriptor fields vs the layout
   expr_num_constants / expr_num_constants_witness   C04  num_constants = number of blocks of the c layout
-  tensorW_covers_partial / tensorW_interior_counterexample   tensor_sizes(IntegralIR).w ignores width
+  tensor_sizes_integral / tensor_sizes_expression   declared extents of A, w, c, coordinate_dofs = contract extents
 
 Core Lean only (no Mathlib needed).
 -/
@@ -532,16 +532,79 @@ theorem expr_num_constants_witness :
       ∧ constAccess dropWitness.origConstShapes 1 [1] = 2 ∧ constTotal dropWitness.origConstShapes = 4 := by
   refine ⟨_, rfl, ?_, ?_, ?_⟩ <;> decide
 
-/-! ### tensor_sizes(IntegralIR).w (used by the numba backend for the extent of `w`) -/
+/-! ### tensor_sizes (extents the numba backend declares for A, w, c, coordinate_dofs) -/
 
-/-- with `width = 1` the extent equals the end of the last coefficient block -/
-theorem tensorW_covers_partial (dims : List Nat) : coeffTotal 1 dims = tensorSizeW dims := by
-  rw [(coeff_blocks_tile 1 dims).2.2.2]; simp [tensorSizeW]
+/-- the integral types of `ufcx.h` / `supported_integral_types` (cf. `Ffcx.C06.enum_order`) -/
+def integralTypes : List String := ["cell", "exterior_facet", "interior_facet", "vertex", "ridge"]
 
-/-- FULL (`∀ width dims, coeffTotal width dims ≤ tensorSizeW dims`) fails for interior facets:
-one P1-triangle coefficient occupies `w[0..6)` but `tensor_sizes` says 3. -/
-theorem tensorW_interior_counterexample :
-    ¬ coeffTotal (widthOf "interior_facet") [3] ≤ tensorSizeW [3] := by decide
+/-- on the supported integral types the two width tests of the code base agree
+(`in ("interior_facet")` in `_compute_integral_ir`, `== "interior_facet"` in `tensor_sizes`) -/
+theorem width_agree (t : String) (h : t ∈ integralTypes) : widthOf t = tensorWidth t := by
+  simp only [integralTypes, List.mem_cons, List.not_mem_nil, or_false] at h
+  rcases h with rfl | rfl | rfl | rfl | rfl <;> decide
+
+/-- **`tensor_sizes_integral`** (full).  For every supported integral type, ANY number of coefficients and
+constants, any argument dimensions, with or without diagonalisation, the extents `tensor_sizes` declares
+equal the UFCx contract extents:
+`A = Π_j width·argdim_j` (first argument only when diagonalising),
+`w = width·Σdim` = end of the last coefficient block (`coeff_blocks_tile`),
+`c = ΣΠshape` = end of the last constant block (`const_blocks_tile`),
+`coordinate_dofs = width·nodes·3`, with `width = 2` exactly for interior facets. -/
+theorem tensor_sizes_integral (t : String) (ht : t ∈ integralTypes) (argDims dims : List Nat)
+    (diag : Bool) (constShapes : List (List Nat)) (nodes : Nat) (perm : Bool) :
+    let s := tensorSizesIntegral t (integralTensorShape t argDims diag) dims constShapes nodes perm
+    s.A = shapeProd (((if diag then argDims.take 1 else argDims)).map (widthOf t * ·))
+    ∧ s.w = coeffTotal (widthOf t) dims
+    ∧ Tiles (coeffOffsets (widthOf t) dims) (blockSizes (widthOf t) dims) s.w
+    ∧ s.c = constTotal constShapes
+    ∧ Tiles (constOffsets constShapes) (constShapes.map shapeProd) s.c
+    ∧ s.coords = widthOf t * nodes * 3
+    ∧ (widthOf t = 2 ↔ t = "interior_facet") ∧ (widthOf t = 1 ∨ widthOf t = 2) := by
+  intro s
+  have hw := width_agree t ht
+  have hA : s.A = shapeProd (((if diag then argDims.take 1 else argDims)).map (widthOf t * ·)) := by
+    simp only [s, tensorSizesIntegral, integralTensorShape, hw, tensorWidth]
+    by_cases hi : t = "interior_facet" <;> cases diag <;> simp [hi, List.map_take]
+  have hcw : s.w = coeffTotal (widthOf t) dims := by
+    rw [(coeff_blocks_tile (widthOf t) dims).2.2.2, hw]; rfl
+  refine ⟨hA, hcw, ?_, rfl, (const_blocks_tile constShapes).1, by rw [hw]; rfl, ?_, ?_⟩
+  · rw [hcw, (coeff_blocks_tile (widthOf t) dims).2.2.2]
+    exact (coeff_blocks_tile (widthOf t) dims).1
+  · rw [hw]; simp only [tensorWidth]; by_cases hi : t = "interior_facet" <;> simp [hi]
+  · rw [hw]; simp only [tensorWidth]; by_cases hi : t = "interior_facet" <;> simp [hi]
+
+/-- **`tensor_sizes_expression`** (full).  For every accepted expression the declared extents are the contract
+extents: `A = num_points·Πvalue_shape·Πargdims` = Π`A_shape` (the descriptor's `sizeA`), `w = Σdim` =
+end of the last coefficient block (width 1), `c = ΣΠshape` of the ORIGINAL constants,
+`coordinate_dofs = nodes·3`. -/
+theorem tensor_sizes_expression (e : ExprIn) (d : ExprDesc) (h : exprDesc e = .ok d)
+    (dims : List Nat) (nodes : Nat) (perm : Bool) :
+    let s := tensorSizesExpr e.numPoints e.shape e.argDims dims e.origConstShapes nodes perm
+    s.A = d.sizeA ∧ s.A = shapeProd (exprAShape e)
+    ∧ s.w = coeffTotal 1 dims ∧ Tiles (coeffOffsets 1 dims) (blockSizes 1 dims) s.w
+    ∧ s.c = constTotal e.origConstShapes ∧ s.coords = nodes * 3 := by
+  intro s
+  have hd := (expr_descriptor e d h).2.2.2.2.2.2.2.1
+  have hA : s.A = d.sizeA := by
+    unfold exprDesc at h
+    split at h
+    · simp at h
+    · split at h
+      · simp at h
+      · simp only [Except.ok.injEq] at h
+        subst h
+        rfl
+  have hw : s.w = coeffTotal 1 dims := by
+    rw [(coeff_blocks_tile 1 dims).2.2.2]; simp [s, tensorSizesExpr]
+  refine ⟨hA, hA.trans hd, hw, ?_, rfl, rfl⟩
+  rw [hw, (coeff_blocks_tile 1 dims).2.2.2]
+  exact (coeff_blocks_tile 1 dims).1
+
+/-- the former witness of `tensor_sizes:w:interior_facet` (one P1-triangle coefficient, interior facet,
+rank 1): `w` is now 6 (it was 3), `coordinate_dofs` 18, `A` 6. -/
+theorem tensor_sizes_interior_witness :
+    tensorSizesIntegral "interior_facet" (integralTensorShape "interior_facet" [3] false) [3] [] 3 true
+      = { A := 6, w := 6, c := 0, coords := 18, localIndex := 2, permutation := 2 } := by decide
 
 /-! ### non-vacuity -/
 
